@@ -28,12 +28,30 @@ typedef __typeof__(*(ROCS_a0)0) NODE_T;
 uint64_t IN_K; unsigned IN_shape; uint8_t IN_Qb;
 static uint8_t *G_obj, *G_db, *G_child; static struct nview GV0, GV1, GVN; static uint8_t G_b; static struct stats S0, S1;
 #ifdef HAVE_P_SHRINK
-/* the N48 -> N16 / N256 -> N48 copy routines do not close inside this job; the shrink branch is cut off here and stays NOT covered for these
- * classes (stated in the job's notes).  The stub still checks WHEN a shrink happens. */
-static _Bool G_at_min;
+/* The copy routine basic_inode_{16,48}::init(db, larger source node, child_to_delete) is replaced by ITS CONTRACT: the array part of the
+ * constructor contract proved on the real routine with loop invariants in node.db64.ctor.i48_to_i16 / i256_to_i48 (the header part - prefix,
+ * count - is written by the parent-class constructor, which stays real here):
+ *   requires  source = this node, well-formed at min_size, the handle designates a leaf child
+ *   ensures   view(new) = view(source) minus the deleted key byte (pointwise: at K's byte and at the witness byte), new node well-formed,
+ *             the leaf and the source node are handed to their deleters exactly once each (the REAL deleters run: ledger and statistics) */
+static _Bool G_at_min; static unsigned G_pshrink; static uint64_t G_qch;
 void P_SHRINK(P_SHRINK_a0 self, P_SHRINK_a1 db, P_SHRINK_a2 src, P_SHRINK_a3 child_to_delete) {
-  __CPROVER_assert((uint8_t *)src == G_obj && G_at_min, "C10: a shrink happens only at min_size");
-  VERIF_CANARY("shrink branch reachable (cut off)"); __CPROVER_assume(0);
+  __CPROVER_assert((uint8_t *)src == G_obj && G_at_min && (void *)db == (void *)G_db, "C10: a shrink happens only at min_size, on this node");
+  __CPROVER_assert(nv_hvalid(&GV0, child_to_delete) && nv_hkey(&GV0, child_to_delete) == G_b, "contract requires: the handle of the child under the key's byte");
+  G_pshrink++;
+  uint8_t *d = (uint8_t *)self;
+  for (unsigned j = 0; j < (KIND == 3 ? 16u : 256u); j++) d[n_off_keys(KIND - 1) + j] = nondet_u8();
+  for (unsigned j = 0; j < (KIND == 3 ? 16u : 48u); j++) *(uint64_t *)(d + n_off_children(KIND - 1) + 8u * j) = nondet_u64();
+  struct nview nd; nv_load(&nd, d, KIND - 1);
+  __CPROVER_assume(nv_child(&nd, G_b) == 0 && (IN_Qb == G_b || nv_child(&nd, IN_Qb) == G_qch));
+#if KIND == 3
+  __CPROVER_assume(nv_wf_small(&nd));
+#else
+  __CPROVER_assume(nv_wf_at(&nd, G_b) && nv_wf_at(&nd, IN_Qb));
+#endif
+  void *dd = (void *)db;
+  LEAF_DELETER((LEAF_DELETER_a0)&dd, (LEAF_DELETER_a1)G_child);
+  INODE_DELETER((INODE_DELETER_a0)&dd, (INODE_DELETER_a1)src);
 }
 #endif
 static _Bool node_wf(const struct nview *v) {
@@ -62,7 +80,7 @@ void harness(void) {
   __CPROVER_assume(IN_Qb == G_b || qch != childw || childw == 0);               /* a tree, not a DAG: the child hangs under exactly its own key byte */
   const _Bool at_min = nv_count(&GV0) == n_minsize(KIND);
 #ifdef HAVE_P_SHRINK
-  G_at_min = at_min;
+  G_at_min = at_min; G_qch = qch;
 #endif
   stats_load(&S0, G_db);
 #ifdef VERIF_CFG_STATS
@@ -81,9 +99,7 @@ void harness(void) {
     __CPROVER_assert(lg_frees == 0 && lg_allocs == 0, "... nothing is released, nothing stays allocated");
     stats_check(&S0, &S1, 0, Z5, Z4, Z4, 0);
     if (verif_exc_pending) { __CPROVER_assert(KIND >= 2 && at_min && matches, "C08: only the smaller node of a shrink can fail to allocate");
-#ifndef HAVE_P_SHRINK
       VERIF_CANARY("exceptional exit reachable");
-#endif
       return; }
     if (IN_shape == 1) { __CPROVER_assert(engaged && rp != 0 && __CPROVER_same_object(rp, G_obj) && *rp == childw, "C01 descend: the slot inside this node that holds the inner child for the key byte"); VERIF_CANARY("descend reachable"); }
     else { __CPROVER_assert(!engaged, "C01: an absent child or a leaf with another key means 'not found'"); VERIF_CANARY("not-found reachable"); }
@@ -102,12 +118,13 @@ void harness(void) {
     stats_check(&S0, &S1, -(int64_t)lsz, d5, Z4, Z4, 0);
     VERIF_CANARY("in-place removal reachable");
   } else {
-#if defined(HAVE_P_SHRINK)
-    __CPROVER_assert(0, "the shrink branch is cut off in this job");
-#elif KIND >= 2
+#if KIND >= 2
     uint8_t *smaller = lg_alloc_p[0];
     __CPROVER_assert(lg_allocs == 1 && lg_alloc_sz[0] == n_size(KIND - 1) && *slot_in_parent == adt_tag(smaller, KIND - 1), "C10: at min_size the node is replaced by a new node of the next smaller class");
     __CPROVER_assert(lg_frees == 2 && lg_freed(G_obj) && lg_freed(G_child), "C10: the replaced node and the leaf are released exactly once each, nothing else");
+#ifdef HAVE_P_SHRINK
+    __CPROVER_assert(G_pshrink == 1, "the copy routine runs exactly once");
+#endif
 #ifndef NO_CONTENT
     nv_load(&GVN, smaller, KIND - 1);
     __CPROVER_assert(nv_count(&GVN) + 1 == nv_count(&GV0) && nv_count(&GVN) == n_capacity(KIND - 1) && GVN.prefix == GV0.prefix && nv_child(&GVN, G_b) == 0, "C01/C10: the new node has min_size - 1 children (its capacity), the same prefix, and no child for the key byte");
